@@ -11,6 +11,8 @@ JSON (Model/JsonFrame.lean)
 File (Model/FileScan.lean)
   * `C20_forward_lines`       : forward scan = the file's lines when every raw line is below the limit
   * `C20_reverse_lines_single_read`, `C20_reverse_lines` : reverse scan = reverse of the file's lines
+  * `C20_elements_stable`     : (heap/slice model, Model/FileHeap.lean) every element read after the whole stream was
+                                pulled has the value it was yielded with
   * witnesses of the known findings F1, F2 and of the repaired defects D19, D20
 -/
 import ShpanVerif.Model.JsonFrame
@@ -18,7 +20,10 @@ import ShpanVerif.Model.FileScan
 import ShpanVerif.Proofs.FileScanLemmas
 import ShpanVerif.Proofs.ReverseScanInv
 import ShpanVerif.Proofs.JsonLexLemmas
+import ShpanVerif.Proofs.FileHeapLemmas
 
+
+set_option autoImplicit false
 namespace ShpanVerif.Props.C20
 open List ShpanVerif.Model
 
@@ -522,5 +527,32 @@ example : reverseScan 100 100 [97, 10, 98] = ([[97]], none) := by decide
 example : reverseScan 4096 65536 [] = ([], none) ∧ forwardScan 65536 [] = ([], none) := by decide
 
 end files
+
+/-! ## elements stay valid -/
+section stable
+open ShpanVerif.Model.FileScan ShpanVerif.Model.FileHeap
+
+/-- **C20_elements_stable** (reverse direction: the repository's own scanner, modelled with its buffer arrays): for
+every file, every default buffer size and maximal token size — also when the scan ends with an error — every element
+collected from `StreamFromFile(path, true)`, read AFTER the whole stream was pulled, has the value it was yielded with
+(`Emit` hands out `bytes.Clone` of the token: an array the scanner never writes to).
+Forward direction: `bufio.Scanner` is not modelled operationally; there stability rests on the same `bytes.Clone`
+and is checked on the real code only (stable flag of every file case). -/
+theorem C20_elements_stable (D M : Nat) (f : Bytes) :
+    elementsAfter true D M f = (reverseScan D M f).1 :=
+  Proofs.FileHeap.elementsAfter_clone D M f
+
+/-- **D20 witness (repaired)**: without the clone the elements are views into the buffer the scanner keeps
+overwriting: "ab\ncd\nef\n" with a 4-byte buffer collects "bc","cd","ab" instead of "ef","cd","ab". -/
+theorem C20_witness_D20 :
+    elementsAfter false 4 64 [97, 98, 10, 99, 100, 10, 101, 102, 10] = [[98, 99], [99, 100], [97, 98]] ∧
+    elementsAfter true 4 64 [97, 98, 10, 99, 100, 10, 101, 102, 10] = [[101, 102], [99, 100], [97, 98]] := by decide
+
+/-- the views are right at the moment they are handed out: with a buffer that holds the whole file nothing is
+overwritten and the unrepaired variant reads the same -/
+example : elementsAfter false 100 100 [97, 98, 99, 10, 104, 105, 13, 10, 106, 10] = [[106], [104, 105], [97, 98, 99]] := by
+  decide
+
+end stable
 
 end ShpanVerif.Props.C20
